@@ -116,7 +116,7 @@ def gen_env(rng, t):
 
 
 def gen_history(rng, maxlen=40, risky=0.03, files=False, clone_p=0.03, into_p=0.0, coll_p=0.0, max_objs=3,
-                classes=None, reload_p=0.17, levels=False, focus=0.0, dictwrites=True, share_p=0.0):
+                classes=None, reload_p=0.17, levels=False, focus=0.0, dictwrites=True, share_p=0.0, srcedit_p=0.0, shapes=True):
     """random history guided by a reference simulation (independent of the implementation)"""
     ops = [{"o": 0, "op": "NEW", "defaults": tree(rng), "overrides": tree(rng, dens=0.3)}]
     if files:
@@ -127,6 +127,8 @@ def gen_history(rng, maxlen=40, risky=0.03, files=False, clone_p=0.03, into_p=0.
         if isinstance(ops[0].get(fld), dict) and rng.random() < share_p:
             ops[0].setdefault("share", {})[fld] = share_variant(rng, ops[0][fld])
     refs = [cfglib.new_ref(ops[0])]
+    # the level dicts the caller still holds (object, slot) -> current content; shared levels are left alone
+    held = {(0, fld): ops[0][fld] for fld in ("defaults", "overrides") if fld not in ops[0].get("share", {})}
     n = rng.randint(3, maxlen)
     while len(ops) < n:
         o = 0 if rng.random() < focus else rng.randrange(len(refs))
@@ -134,6 +136,33 @@ def gen_history(rng, maxlen=40, risky=0.03, files=False, clone_p=0.03, into_p=0.
         r = rng.random()
         op = {"o": o}
         extra = []
+        mine = [k for k in held if k[0] == o]
+        if mine and rng.random() < srcedit_p:
+            # CALLER-SIDE in-place edit of data supplied earlier, made visible by load_*(the same object) / merge()
+            slot = rng.choice(mine)[1]
+            data = copy.deepcopy(held[(o, slot)])
+            lp = [k for k, v in SHAPE.items() if v == "leaf" and not in_mods_only(k)]
+            present = [k for k, _ in cfglib.leaves(data)]
+            if present and rng.random() < 0.35:
+                k = rng.choice(present)
+                cfglib.del_total(data, list(k))
+                ed = {"o": o, "op": "EDITSRC", "slot": slot, "keys": list(k), "data": data}
+            else:
+                k = rng.choice(present) if present and rng.random() < 0.5 else rng.choice(lp)
+                v = leaf(rng, k)
+                cfglib.set_total(data, list(k), v)
+                ed = {"o": o, "op": "EDITSRC", "slot": slot, "keys": list(k), "v": v, "data": data}
+            held[(o, slot)] = data
+            t = rng.random()
+            trig = ({"o": o, "op": "LOADSAME", "slot": slot, "data": copy.deepcopy(data)} if t < 0.55 else
+                    {"o": o, "op": "MERGE"} if t < 0.9 else {"o": o, "op": "ENV", "env": {}})
+            for e in (ed, trig):
+                ops.append(e)
+                try:
+                    ref.apply(e)
+                except cfglib.RefSkip:
+                    pass
+            continue
         if r < reload_p and levels and rng.random() < 0.45:
             w = rng.random()
             if w < 0.6:
@@ -257,6 +286,12 @@ def gen_history(rng, maxlen=40, risky=0.03, files=False, clone_p=0.03, into_p=0.
             if op["op"] in ("LOAD", "LOADU", "RUNTIME", "PROJECT") and isinstance(op.get("data"), dict) \
                     and not op.get("via_coll") and rng.random() < share_p:
                 op["share"] = {"data": share_variant(rng, op["data"])}
+            if op["op"] in ("LOAD", "LOADU"):
+                held.pop((op["o"], op["slot"]), None)
+                if not op.get("via_coll") and "share" not in op:
+                    held[(op["o"], op["slot"])] = op["data"]
+            if op["op"] == "UPD" and "m" in op and shapes:
+                op["shape"] = rng.choice(SHAPES_IN_USE)
             ops.append(op)
             try:
                 if op["op"] == "CLONE":
@@ -300,7 +335,13 @@ def gen_sub(rng, path, ref):
     if r < 0.79:
         return {"op": "SD", "k": k, "d": leaf(rng, full)}
     if r < 0.85:
-        return {"op": "UPD", "kw": {kk: leaf(rng, tuple(path) + (kk,)) for kk in rng.sample(cand, rng.randint(1, len(cand)))}}
+        kvs = {kk: leaf(rng, tuple(path) + (kk,)) for kk in rng.sample(cand, rng.randint(1, len(cand)))}
+        if rng.random() < 0.6:
+            ks = list(kvs)
+            cut = rng.randint(1, len(ks))
+            return {"op": "UPD", "m": {k2: kvs[k2] for k2 in ks[:cut]}, "kw": {k2: kvs[k2] for k2 in ks[cut:]},
+                    "shape": rng.choice(cfglib.UPDATE_SHAPES)}
+        return {"op": "UPD", "kw": kvs}
     sub = {"op": rng.choice(["GI", "HAS", "KEYS", "LEN"]), "k": k}
     if sub["op"] in ("KEYS", "LEN"):
         del sub["k"]
@@ -318,7 +359,7 @@ def gen_handle_history(rng, maxlen=24, files=False, clone_p=0.1, levels="nofiles
     out, refs, handles = [], [], []
 
     def weave():
-        if not refs or (out and out[-1]["op"] == "LOADU"):
+        if not refs or (out and out[-1]["op"] in ("LOADU", "EDITSRC")):
             return
         r = rng.random()
         if r < 0.3 or not handles:
@@ -519,24 +560,31 @@ def run_held(case):
 
 # ------------------------------------------------------------------ known-finding signatures
 
-KNOWN_SIGS = ("C06-section-write-merges", "C06-section-rewrite-resurrects")
+KNOWN_SIGS = ("C06-section-write-merges", "C06-section-rewrite-resurrects", "C06-update-from-proxy")
+SHAPES_IN_USE = list(cfglib.UPDATE_SHAPES)  # + "proxy" once known finding C06-update-from-proxy is listed (see run)
 
 
 def classify(ops):
     """signature of the FIRST oracle failure of a history on the real code, or None (see `signature`)"""
     ops = copy.deepcopy(ops)
     _, results, views = cfglib.run_impl(ops)
-    return signature(cfglib.judge(ops[:len(results)], results, views))
+    return signature(cfglib.judge(ops[:len(results)], results, views), ops)
 
 
-def signature(f):
+def signature(f, ops=None):
     """signature of a failure record of `cfglib.judge`, or None when there is no failure.
+
+    'C06-update-from-proxy'         the failing operation is `update(<another Config / DataProxy>)`: dict.update takes
+                                    it as a mapping, DataProxy.update iterates it as pairs (IndexError / garbage keys)
 
     'C06-section-write-merges'      a dict-valued write to a key path that is a section in the merge of the lower
                                     levels: the lower levels' settings below it still show through (everything the
                                     implementation shows in excess is exactly the lower levels' content)
     'C06-section-rewrite-resurrects' the same, where the section had been deleted before the write
     anything else -> 'other'"""
+    if f is not None and ops is not None and f["at"] < len(ops) and ops[f["at"]]["op"] == "UPD" \
+            and ops[f["at"]].get("shape") == "proxy":
+        return "C06-update-from-proxy"
     if f is None:
         return None
     if f["kind"] != "view" or not f["diffs"]:
@@ -601,6 +649,11 @@ def run(ctx):
     out = Outcome()
     rng = ctx.rng
     drv = LeanDriver("drv_config")
+    # `update(<another configuration>)` is generated only once its known finding is listed (it fails on the clean tree)
+    del SHAPES_IN_USE[:]
+    SHAPES_IN_USE.extend(cfglib.UPDATE_SHAPES)
+    if any(e.get("id") == "C06-update-from-proxy" and e.get("status") == "known" for e in common.known_findings("C06")):
+        SHAPES_IN_USE.append("proxy")
     hists = []
     depth = 4 if (ctx.thorough or ctx.escalated) else 3
     if depth == 4:
@@ -636,11 +689,13 @@ def run(ctx):
         out.hist["ops"] += len(ops2)
         for o, r in zip(ops2, results):
             out.hist["op_" + o["op"] + ("_err" if r.startswith("E:") else "")] += 1
+            if o["op"] == "UPD" and "m" in o:
+                out.hist["update_shape_" + o.get("shape", "dict") + ("+kw" if o.get("kw") else "")] += 1
         if any(o["op"] in ("LOAD", "ENV") for o in ops2) and muts:
             out.hist["hist_with_reload_and_mutation"] += 1
         if f is not None:
             f_case = {"kind": "hist", "ops": ops2[:f["at"] + 1]}
-            sig = signature(f)
+            sig = signature(f, ops2)
             out.hist["oracle_" + sig] += 1
             # failures carrying a known-finding signature are sampled (run.py re-checks each one against
             # known_findings.json); every other failure is always reported
